@@ -10,6 +10,9 @@
            `S …`         summary
 -/
 import BroodModel.Dump
+import BroodModel.Query
+import BroodModel.Spec
+import BroodModel.Serde
 
 open Brood
 
@@ -26,6 +29,10 @@ structure St where
   oracleFails : Nat := 0
   realDumps : Nat := 0
   diverged : Bool := false
+  /-- L0 reference map per world slot, driven by the *real* results -/
+  specs : List (Option Spec) := [none, none, none, none]
+  /-- the op whose real result line is awaited: world, name, args -/
+  pending : Option (Nat × String × List String) := none
   emit : Bool := false
 
 def parseNats (s : String) : Option (List Nat) :=
@@ -181,9 +188,10 @@ def runOp (st : St) (wi : Nat) (name : String) (args : List String) : St × Stri
     | some o =>
       match st.getW wi, st.getW o with
       | some a, some b =>
-        match World.eqWorld a b with
-        | .ok r => (st, s!"ok eq={if r then 1 else 0}")
-        | .ub e => (st, ubStr e)
+        match World.eqWorld a b, World.eqWorld b a with
+        | .ok r, .ok r' => (st, s!"ok eq={if r then 1 else 0} rev={if r' then 1 else 0}")
+        | .ub e, _ => (st, ubStr e)
+        | _, .ub e => (st, ubStr e)
       | _, _ => (st, "no-world")
     | none => bad
   | "probe", [idS] =>
@@ -194,6 +202,60 @@ def runOp (st : St) (wi : Nat) (name : String) (args : List String) : St × Stri
     | none => bad
   | "len", [] =>
     withW fun w => (st, s!"ok len={w.len} empty={if w.isEmpty then 1 else 0}")
+  | "de", [modeS, eS, _srcS, toksS] =>
+    match eS.toNat? with
+    | some e =>
+      let hr := modeS == "rows"
+      let old := match st.getW wi with | some w => w.values | none => []
+      match Serde.deserialize k hr st.n k.res.length e st.next (Serde.parseToks toksS) with
+      | .ok w' =>
+        let eqS :=
+          match _srcS.toNat? with
+          | some src =>
+            match st.getW src with
+            | some s => if src == wi then "" else
+              match World.eqWorld s w' with
+              | .ok b => s!" eq={if b then 1 else 0}"
+              | .ub _ => " eq=UB"
+            | none => ""
+          | none => ""
+        (st.setW wi (some w'), s!"ok{eqS} drops={dropsStr k old}")
+      | .error _ => (st, "err")
+    | none => bad
+  | "q", [viewsS, filterS, _mode, eS] =>
+    match parseViews viewsS, parseFilter filterS with
+    | some vs, some f =>
+      withW fun w =>
+        match w.query vs f with
+        | .ub e => (st, ubStr e)
+        | .ok rows =>
+          let rowsS := String.intercalate "," (sortStrings (rows.map (rowStr k)))
+          match eS.toNat? with
+          | some e =>
+            let (w', drops) := w.queryWrite vs f e
+            (st.setW wi (some w'), s!"ok n={rows.length} rows={rowsS} drops={dropsStr k drops}")
+          | none => (st, s!"ok n={rows.length} rows={rowsS} drops=")
+    | _, _ => bad
+  | "entryq", [idS, viewsS, filterS] =>
+    match parseIdent idS, parseViews viewsS, parseFilter filterS with
+    | some id, some vs, some f =>
+      withW fun w =>
+        if (w.alloc.get id).isNone then (st, "none") else
+        match w.entryQuery id vs f with
+        | .ub e => (st, ubStr e)
+        | .ok none => (st, "filtered")
+        | .ok (some row) => (st, s!"ok row={rowStr k row}")
+    | _, _, _ => bad
+  | "entries", [_viewsS, _filterS, evsS, idS, subsS, sfS] =>
+    match parseViews evsS, parseIdent idS, parseViews subsS, parseFilter sfS with
+    | some evs, some id, some subs, some f =>
+      withW fun w =>
+        if (w.alloc.get id).isNone then (st, "none") else
+        match w.entriesQuery evs id subs f with
+        | .ub e => (st, ubStr e)
+        | .ok none => (st, "filtered")
+        | .ok (some row) => (st, s!"ok row={rowStr k row}")
+    | _, _, _, _ => bad
   | _, _ => bad
 
 def dumpsOf (st : St) : List String :=
@@ -202,6 +264,248 @@ def dumpsOf (st : St) : List String :=
     | some w => some s!"d {i} {w.dump st.kinds}"
     | none => none)
 
+def fieldOf (toks : List String) (name : String) : Option String := field toks name
+
+def St.getS (st : St) (i : Nat) : Option Spec := st.specs.getD i none
+def St.setS (st : St) (i : Nat) (s : Option Spec) : St := { st with specs := st.specs.set i s }
+
+def xline (st : St) (oracle what : String) : String :=
+  s!"X {st.lineNo} case={st.caseName} oracle={oracle} {what}"
+
+def specVals (k : Kinds) (s : Spec) : List Val := s.ents.flatMap (·.vals) ++ s.res
+
+/-- Update the L0 spec of the awaited op with the implementation's own result line and check the
+result against the spec.  Returns the `X` lines of failed oracles. -/
+def specOnResult (st : St) (toks : List String) : St × List String :=
+  match st.pending with
+  | none => (st, [])
+  | some (wi, name, args) =>
+    let st := { st with pending := none }
+    let k := st.kinds
+    let status := toks.getD 1 ""
+    let fail (st : St) (o w : String) : St × List String :=
+      ({ st with oracleFails := st.oracleFails + 1 }, [xline st o w])
+    let realDrops := fieldOf toks "drops"
+    let checkDrops (st : St) (expect : List Val) : St × List String :=
+      match realDrops with
+      | some d => if d == dropsStr k expect then (st, []) else fail st "drops" s!"op={name} spec-drops=[{dropsStr k expect}] real-drops=[{d}]"
+      | none => (st, [])
+    -- anything but a plain outcome: the spec of that world is no longer tracked
+    if status == "panicked" || status == "bad-op" || status == "no-world" || status == "UB" then
+      (if name == "len" || name == "probe" || name == "eq" then st else st.setS wi none, [])
+    else
+    match name, args with
+    | "new", [resIds] =>
+      let old := match st.getS wi with | some s => specVals k s | none => []
+      let ids := (parseNats resIds).getD []
+      let res := List.zipWith (fun p i => mkVal k (resTy p) i) (List.range ids.length) ids
+      let tracked := (st.getS wi).isSome || (st.getW wi).isNone || true
+      let (st1, o) := if (st.getS wi).isSome then checkDrops st old else (st, [])
+      let _ := tracked
+      (st1.setS wi (some (Spec.empty res)), o)
+    | "insert", [shapeS, idsS] =>
+      match st.getS wi, parseNats shapeS, parseNats idsS, (fieldOf toks "id").bind parseIdent with
+      | some s, some shape, some ids, some id =>
+        match s.insert id (mkVals k shape ids) with
+        | some s' => (st.setS wi (some s'), [])
+        | none => let (st, o) := fail st "spec" s!"ident-reused {id.toStr} was issued before in this world"
+                  (st.setS wi none, o)
+      | none, _, _, _ => (st, [])
+      | _, _, _, _ => fail st "spec" "insert returned no identifier"
+    | "extend", [shapeS, rowsS] =>
+      match st.getS wi, parseNats shapeS, parseRows rowsS with
+      | some s, some shape, some rows =>
+        let idsS := (fieldOf toks "ids").getD ""
+        match (splitNE idsS ",").mapM parseIdent with
+        | some ids =>
+          if ids.length ≠ rows.length then
+            let (st, o) := fail st "spec" s!"extend returned {ids.length} identifiers for {rows.length} rows"
+            (st.setS wi none, o)
+          else
+          match s.extend ids (rows.map (mkVals k shape)) with
+          | some s' => (st.setS wi (some s'), [])
+          | none => let (st, o) := fail st "spec" s!"ident-reused in batch [{idsS}]"
+                    (st.setS wi none, o)
+        | none => fail st "spec" "extend result unparsable"
+      | _, _, _ => (st, [])
+    | "remove", [idS] =>
+      match st.getS wi, parseIdent idS with
+      | some s, some id =>
+        let expect := match s.find id with | some e => e.vals | none => []
+        let (st, o) := checkDrops st expect
+        (st.setS wi (some (s.remove id)), o)
+      | _, _ => (st, [])
+    | "clear", _ =>
+      match st.getS wi with
+      | some s => let (st, o) := checkDrops st (s.ents.flatMap (·.vals)); (st.setS wi (some s.clear), o)
+      | none => (st, [])
+    | "add", [idS, cS, vS] =>
+      match st.getS wi, parseIdent idS, cS.toNat?, vS.toNat? with
+      | some s, some id, some c, some v =>
+        match s.find id with
+        | none => if status == "none" then (st, []) else fail st "spec" s!"add on dead identifier {id.toStr} returned {status}"
+        | some e =>
+          if status == "none" then fail st "spec" s!"entry() is None for live identifier {id.toStr}" else
+          let (st, o) := checkDrops st (e.vals.filter (fun x => x.ty == c))
+          (st.setS wi (some (s.add id (mkVal k c v))), o)
+      | _, _, _, _ => (st, [])
+    | "del", [idS, cS] =>
+      match st.getS wi, parseIdent idS, cS.toNat? with
+      | some s, some id, some c =>
+        match s.find id with
+        | none => if status == "none" then (st, []) else fail st "spec" s!"del on dead identifier {id.toStr} returned {status}"
+        | some e =>
+          if status == "none" then fail st "spec" s!"entry() is None for live identifier {id.toStr}" else
+          let (st, o) := checkDrops st (e.vals.filter (fun x => x.ty == c))
+          (st.setS wi (some (s.del id c)), o)
+      | _, _, _ => (st, [])
+    | "write", [idS, cS, vS] =>
+      match st.getS wi, parseIdent idS, cS.toNat?, vS.toNat? with
+      | some s, some id, some c, some v =>
+        match s.find id with
+        | none => if status == "none" then (st, []) else fail st "spec" s!"write on dead identifier {id.toStr} returned {status}"
+        | some e =>
+          let has := e.vals.any (fun x => x.ty == c)
+          if has && status == "none" then fail st "spec" s!"entry query is None for live identifier {id.toStr} with component {c}"
+          else if !has && status != "none" then fail st "spec" s!"entry query yields absent component {c} of {id.toStr}"
+          else
+          let (st, o) := if has then checkDrops st (e.vals.filter (fun x => x.ty == c)) else (st, [])
+          (st.setS wi (some (s.write id (mkVal k c v))), o)
+      | _, _, _, _ => (st, [])
+    | "probe", [idS] =>
+      match st.getS wi, parseIdent idS with
+      | some s, some id =>
+        let want := if s.contains id then "1" else "0"
+        if fieldOf toks "contains" == some want && fieldOf toks "entry" == some want then (st, [])
+        else fail st "spec" s!"ident {id.toStr} live-in-spec={want} real contains={fieldOf toks "contains"} entry={fieldOf toks "entry"}"
+      | _, _ => (st, [])
+    | "len", [] =>
+      match st.getS wi with
+      | some s =>
+        let want := toString s.ents.length
+        let wantE := if s.ents.isEmpty then "1" else "0"
+        if fieldOf toks "len" == some want && fieldOf toks "empty" == some wantE then (st, [])
+        else fail st "spec" s!"len: spec={want} real={fieldOf toks "len"} empty={fieldOf toks "empty"}"
+      | none => (st, [])
+    | "clone", [srcS, eS] =>
+      match srcS.toNat?, eS.toNat? with
+      | some src, some e =>
+        let old := match st.getS wi with | some s => some (specVals k s) | none => none
+        let (st, o) := match old with | some vs => checkDrops st vs | none => (st, [])
+        (st.setS wi ((st.getS src).map (fun s => s.copy e)), o)
+      | _, _ => (st, [])
+    | "clonefrom", [srcS, eS] =>
+      match srcS.toNat?, eS.toNat? with
+      | some src, some e =>
+        let old := match st.getS wi with | some s => some (specVals k s) | none => none
+        let (st, o) := match old with | some vs => checkDrops st vs | none => (st, [])
+        (st.setS wi ((st.getS src).map (fun s => s.copy e)), o)
+      | _, _ => (st, [])
+    | "drop", [] =>
+      let (st, o) := match st.getS wi with | some s => checkDrops st (specVals k s) | none => (st, [])
+      (st.setS wi none, o)
+    | "eq", [oS] =>
+      match oS.toNat? with
+      | some o =>
+        let eq := fieldOf toks "eq"
+        let rev := fieldOf toks "rev"
+        let asym := if rev.isSome && eq != rev then [xline st "eq" s!"asymmetric eq={eq} rev={rev}"] else []
+        let refl := if o == wi && eq != some "1" then [xline st "eq" "irreflexive"] else []
+        let unsound :=
+          match st.getS wi, st.getS o with
+          | some a, some b =>
+            let ra := String.intercalate ";" (sortStrings (a.ents.map (fun e => s!"{e.id.toStr}:" ++ String.intercalate "," (e.vals.map (fun v => s!"{v.ty}:{if k.kindOf v.ty == 'z' then 0 else v.base}")))))
+            let rb := String.intercalate ";" (sortStrings (b.ents.map (fun e => s!"{e.id.toStr}:" ++ String.intercalate "," (e.vals.map (fun v => s!"{v.ty}:{if k.kindOf v.ty == 'z' then 0 else v.base}")))))
+            let resA := a.res.map (fun v => if k.kindOf v.ty == 'z' then 0 else v.base)
+            let resB := b.res.map (fun v => if k.kindOf v.ty == 'z' then 0 else v.base)
+            if eq == some "1" && (ra != rb || resA != resB) then [xline st "eq" s!"unsound: worlds compare equal but hold different entities/values/resources"] else []
+          | _, _ => []
+        let outs := asym ++ refl ++ unsound
+        ({ st with oracleFails := st.oracleFails + outs.length }, outs)
+      | none => (st, [])
+    | "de", [_mode, eS, srcS, _toks] =>
+      if status == "ok" then
+        let old := match st.getS wi with | some s => some (specVals k s) | none => none
+        let (st, o) := match old with | some vs => checkDrops st vs | none => (st, [])
+        let (st, o) :=
+          if fieldOf toks "eq" == some "0" then
+            let (st, o2) := fail st "lockstep" s!"round trip of world {srcS} does not compare equal to the original"
+            (st, o ++ o2)
+          else (st, o)
+        match srcS.toNat?, eS.toNat? with
+        | some src, some e => (st.setS wi ((st.getS src).map (fun s => s.copy e)), o)
+        | _, _ => (st.setS wi none, o)      -- a mutated input that was accepted: contents not predicted by L0
+      else
+        -- an unmutated serialization of a reachable world must deserialize (C06)
+        match srcS.toNat? with
+        | some src => fail st "lockstep" s!"serialization of world {src} was rejected by deserialize"
+        | none => (st, [])
+    | "serde", srcS :: _mode :: eS :: _ =>
+      match srcS.toNat?, eS.toNat? with
+      | some src, some e =>
+        if status == "ok" then
+          let old := match st.getS wi with | some s => some (specVals k s) | none => none
+          let (st, o) := match old with | some vs => checkDrops st vs | none => (st, [])
+          (st.setS wi ((st.getS src).map (fun s => s.copy e)), o)
+        else (st, [])
+      | _, _ => (st, [])
+    | "q", [viewsS, filterS, _mode, eS] =>
+      match st.getS wi, parseViews viewsS, parseFilter filterS with
+      | some s, some vs, some f =>
+        let rows := Spec.query st.n s vs f
+        let want := String.intercalate "," (sortStrings (rows.map (rowStr k)))
+        let (st, o1) :=
+          if fieldOf toks "rows" == some want && fieldOf toks "n" == some (toString rows.length) then (st, [])
+          else fail st "query" s!"views={viewsS} filter={filterS} spec-rows=[{want}] real-rows=[{(fieldOf toks "rows").getD ""}]"
+        match eS.toNat? with
+        | some e =>
+          let cs := (vs.filter View.isMut).filterMap View.comp?
+          let expect := (s.ents.filter (fun en => specMatches vs f (Spec.maskOf st.n en.vals))).flatMap
+            (fun en => en.vals.filter (fun v => cs.contains v.ty))
+          let (st, o2) := checkDrops st expect
+          (st.setS wi (some (Spec.queryWrite st.n s vs f e)), o1 ++ o2)
+        | none => (st, o1)
+      | _, _, _ => (st, [])
+    | "entryq", [idS, viewsS, filterS] =>
+      match st.getS wi, parseIdent idS, parseViews viewsS, parseFilter filterS with
+      | some s, some id, some vs, some f =>
+        let want :=
+          match s.find id with
+          | none => "none"
+          | some e => if specMatches vs f (Spec.maskOf st.n e.vals) then "ok row=" ++ rowStr k (vs.map (Spec.cellOf e)) else "filtered"
+        let got := String.intercalate " " (toks.drop 1)
+        if got == want then (st, []) else fail st "query" s!"entry({id.toStr}).query views={viewsS} filter={filterS} spec=[{want}] real=[{got}]"
+      | _, _, _, _ => (st, [])
+    | "entries", [_v, _f, _evs, idS, subsS, sfS] =>
+      match st.getS wi, parseIdent idS, parseViews subsS, parseFilter sfS with
+      | some s, some id, some vs, some f =>
+        let want :=
+          match s.find id with
+          | none => "none"
+          | some e => if specMatches vs f (Spec.maskOf st.n e.vals) then "ok row=" ++ rowStr k (vs.map (Spec.cellOf e)) else "filtered"
+        let got := String.intercalate " " (toks.drop 1)
+        if got == want then (st, []) else fail st "query" s!"entries.entry({id.toStr}).query sub-views={subsS} filter={sfS} spec=[{want}] real=[{got}]"
+      | _, _, _, _ => (st, [])
+    | _, _ => (st, [])
+
+/-- Compare `abs` of a real dump with the L0 spec of that world. -/
+def specOnDump (st : St) (wi : Nat) (rw : World) : St × List String :=
+  match st.getS wi with
+  | none => (st, [])
+  | some s =>
+    let k := st.kinds
+    let a := rw.absStr k
+    let b := s.render k
+    let o1 := if a == b then [] else [xline st "spec" s!"world {wi} holds [{a}] but the reference map holds [{b}]"]
+    let o2 := if rw.len == s.ents.length then [] else [xline st "spec" s!"world {wi} len()={rw.len} but the reference map has {s.ents.length} entities"]
+    let rr := String.intercalate "," (rw.res.map (valStr k))
+    let sr := String.intercalate "," (s.res.map (valStr k))
+    let o3 := if rr == sr then [] else [xline st "res" s!"world {wi} resources [{rr}] but the reference holds [{sr}]"]
+    let outs := o1 ++ o2 ++ o3
+    -- after a reported divergence stop tracking that world (one report per divergence)
+    let st := if outs.isEmpty then st else st.setS wi none
+    ({ st with oracleFails := st.oracleFails + outs.length }, outs)
+
 def stepLine (st : St) (line : String) : St × List String :=
   let st := { st with lineNo := st.lineNo + 1 }
   let toks := (line.trimAscii.toString.splitOn " ").filter (· ≠ "")
@@ -209,7 +513,7 @@ def stepLine (st : St) (line : String) : St × List String :=
   | [] => (st, [])
   | "case" :: rest =>
     let out := if st.expected.isEmpty then [] else [s!"M {st.lineNo} case={st.caseName} missing-real-lines={st.expected.length}"]
-    ({ st with worlds := [none, none, none, none], next := 0,
+    ({ st with worlds := [none, none, none, none], specs := [none, none, none, none], pending := none, next := 0,
                expected := [], diverged := false, caseName := String.intercalate " " rest,
                mismatches := st.mismatches + out.length }, out)
   | ["registry", nS, kindsS] =>
@@ -225,7 +529,7 @@ def stepLine (st : St) (line : String) : St × List String :=
       let (st', r) := runOp st wi name args
       let exp := s!"r {r}" :: dumpsOf st'
       let emitted := if st.emit then (line :: exp) else []
-      ({ st' with expected := exp }, out ++ emitted)
+      ({ st' with expected := exp, pending := some (wi, name, args) }, out ++ emitted)
   | tag :: _ =>
     if tag == "r" || tag == "d" then
       -- a line from the implementation: compare with the model's expectation
@@ -240,6 +544,9 @@ def stepLine (st : St) (line : String) : St × List String :=
           if st.diverged then (st, []) else
           ({ st with mismatches := st.mismatches + 1, diverged := true },
            [s!"M {st.lineNo} case={st.caseName} model=[] real=[{lineT}]"])
+      -- L0 oracle on the implementation's own results
+      let (st, outS) := if tag == "r" then specOnResult st toks else (st, [])
+      let out1 := out1 ++ outS
       -- oracle on the implementation: Inv on the real dump
       if tag == "d" then
         match toks with
@@ -250,6 +557,9 @@ def stepLine (st : St) (line : String) : St × List String :=
             ({ st with oracleFails := st.oracleFails + 1 },
              out1 ++ [s!"X {st.lineNo} case={st.caseName} oracle=dump-parse real=[{lineT}]"])
           | some rw =>
+            let wiD := (toks.getD 1 "").toNat?.getD 0
+            let (st, outA) := specOnDump st wiD rw
+            let out1 := out1 ++ outA
             if invB rw then (st, out1)
             else ({ st with oracleFails := st.oracleFails + 1 },
                   out1 ++ [s!"X {st.lineNo} case={st.caseName} oracle=Inv failed={invFailures rw} real=[{lineT}]"])
